@@ -185,6 +185,8 @@ def extra_items(tier):
     for i in range(0, nv, step * stride):
         items.append(("c08", (tier, i, min(i + step, nv))))
     items.append(("attrs", 0))
+    for v in range(4):
+        items.append(("collide", v))
     return items
 
 
@@ -201,6 +203,11 @@ def extra_doc(item):
         return c07.mk_doc(c07.binary_variants("quick"), 3, "Binary"), []
     if fam == "c08":
         return c08.doc_for(list(range(x[1], x[2])), x[0]), []
+    if fam == "collide":
+        # one name shared by a parameter type, a parameter and a container
+        from mc.checks.c17 import collide_doc
+        mk = docs_mod().packet_for
+        return collide_doc(x), [mk(1, "10100101" + "1100" + "0011" + "01011010"), mk(2, "0110" + "1001" + "11110000")]
     return attrs_doc(), []
 
 
